@@ -204,6 +204,11 @@ def dyadic_grid(draw, max_log2_steps=6):
     """(t0, dt, nsteps): dyadic dt and t0 so that t0 + k*dt is exact in floating point."""
     k = draw(st.integers(1, 7))
     dt = 2.0 ** -k
+    if draw(st.sampled_from([False, False, False, False, True])):
+        # a window far from the time origin (|t| >> dt; every t0 + j*dt is still exact): tolerances relative to |t| are then
+        # as large as a step
+        t0 = draw(st.sampled_from([1024.0, -4096.0, 65536.0, 20000.0])) + draw(st.integers(-8, 8)) * dt
+        return t0, dt, draw(st.integers(1, 2 ** max_log2_steps))
     if draw(st.sampled_from([False, False, False, True])):
         # a step with one extra low bit: every t0 + j*dt is still exact in float64, but dt is not representable in float32
         dt = dt + 2.0 ** -40
